@@ -101,30 +101,32 @@ func musigConfigs(ctx *vrun.Ctx) []musigCfg {
 	var cs []musigCfg
 	// algebra, raw API, every value of the listed ranges
 	if !ctx.Thorough {
-		cs = append(cs, musigCfg{name: "algebra-2signers", q: 5, signers: 2, tweaks: 2, keys: nz5, coefs: all5, tvals: []int{2}, n1: nz5, n2: []int{1},
+		cs = append(cs, musigCfg{name: "algebra-2signers", q: 5, signers: 2, tweaks: 2, keys: nz5, coefs: []int{0, 2, 3}, tvals: []int{2}, n1: nz5, n2: []int{1},
 			bvals: all5, evals: []int{2}, sorts: []bool{false}, apis: []string{"raw"}, taps: gen})
 		cs = append(cs, musigCfg{name: "session-2signers", q: 5, signers: 2, tweaks: 0, noise: 1, keys: []int{1, 3}, coefs: []int{2}, tvals: []int{1}, n1: []int{1, 4}, n2: []int{1, 4},
 			bvals: []int{1}, evals: []int{2}, sorts: []bool{false}, apis: []string{"session"}, taps: gen, faults: true})
 	} else {
 		cs = append(cs, musigCfg{name: "algebra-2signers", q: 5, signers: 2, tweaks: 2, keys: nz5, coefs: all5, tvals: []int{1, 3}, n1: nz5, n2: []int{1, 2},
 			bvals: all5, evals: []int{0, 2}, sorts: []bool{false}, apis: []string{"raw"}, taps: gen, timeout: 25 * time.Minute})
-		cs = append(cs, musigCfg{name: "algebra-3signers", q: 5, signers: 3, tweaks: 1, keys: nz5, coefs: all5, tvals: []int{1, 3}, n1: nz5, n2: []int{1},
+		cs = append(cs, musigCfg{name: "algebra-3signers", q: 5, signers: 3, tweaks: 1, keys: nz5, coefs: []int{0, 2, 3}, tvals: []int{1, 3}, n1: nz5, n2: []int{1},
 			bvals: all5, evals: []int{2}, sorts: []bool{false}, apis: []string{"raw"}, taps: gen, timeout: 25 * time.Minute})
-		cs = append(cs, musigCfg{name: "algebra-q7", q: 7, signers: 2, tweaks: 1, keys: seq(1, 6), coefs: []int{0, 1, 3, 5}, tvals: []int{0, 2, 5}, n1: seq(1, 6), n2: []int{1, 3},
-			bvals: seq(0, 6), evals: []int{3}, sorts: []bool{false, true}, apis: []string{"raw"}, taps: gen, faults: true, timeout: 25 * time.Minute})
+		cs = append(cs, musigCfg{name: "algebra-q7-sorted-faults", q: 7, signers: 2, tweaks: 1, keys: seq(1, 6), coefs: []int{0, 3, 5}, tvals: []int{0, 2, 5}, n1: seq(1, 6), n2: []int{1},
+			bvals: seq(0, 6), evals: []int{3}, sorts: []bool{true}, apis: []string{"raw"}, taps: gen, faults: true, timeout: 25 * time.Minute})
 		cs = append(cs, musigCfg{name: "session-2signers", q: 5, signers: 2, tweaks: 1, noise: 1, keys: []int{1, 3}, coefs: []int{2}, tvals: []int{1}, n1: []int{1, 4}, n2: []int{1, 4},
 			bvals: []int{1, 3}, evals: []int{2}, sorts: []bool{false}, apis: []string{"session"}, taps: gen, faults: true, timeout: 25 * time.Minute})
 	}
 	// random behaviours of the whole protocol for the replay
-	n := 350
-	if ctx.Thorough {
-		n = 2500
-	}
 	for i, q := range []int{5, 7} {
-		cs = append(cs, musigCfg{name: fmt.Sprintf("replay-q%d", q), q: q, signers: 3, tweaks: 2, noise: 4, keys: seq(1, q-1), coefs: seq(0, q-1), tvals: seq(0, q-1),
-			n1: seq(1, q-1), n2: seq(1, q-1), bvals: seq(0, q-1), evals: seq(0, q-1), sorts: []bool{false, true}, apis: []string{"session", "raw"},
-			taps: []string{"generic", "taproot", "bip86"}, faults: true, lightInv: true,
-			sim: &tlc.Sim{Num: n, Depth: 70, Seed: ctx.Seed*101 + int64(i)*7 + 3}, timeout: 25 * time.Minute})
+		n, chunks := []int{260, 200}[i], 1
+		if ctx.Thorough {
+			n, chunks = 500, []int{4, 3}[i]
+		}
+		for ch := 0; ch < chunks; ch++ {
+			cs = append(cs, musigCfg{name: fmt.Sprintf("replay-q%d-%d", q, ch), q: q, signers: 3, tweaks: 2, noise: 4, keys: seq(1, q-1), coefs: seq(0, q-1), tvals: seq(0, q-1),
+				n1: seq(1, q-1), n2: seq(1, q-1), bvals: seq(0, q-1), evals: seq(0, q-1), sorts: []bool{false, true}, apis: []string{"session", "raw"},
+				taps: []string{"generic", "taproot", "bip86"}, faults: true, lightInv: true,
+				sim: &tlc.Sim{Num: n, Depth: 70, Seed: ctx.Seed*101 + int64(i)*7 + int64(ch)*1009 + 3}, timeout: 25 * time.Minute})
+		}
 	}
 	return cs
 }
@@ -137,7 +139,11 @@ func runMusig(ctx *vrun.Ctx) error {
 	}
 	outs := make([]out, len(cfgs))
 	var wg sync.WaitGroup
-	sem := make(chan struct{}, 3)
+	par := 4
+	if ctx.Thorough {
+		par = 5
+	}
+	sem := make(chan struct{}, par)
 	for i := range cfgs {
 		wg.Add(1)
 		go func(i int) {
@@ -204,7 +210,7 @@ func runMusig(ctx *vrun.Ctx) error {
 	stats := map[string]int{}
 	var herr error
 	ctx.Parallel(len(behs), func(i int) {
-		st, err := replayMusig(ctx, behs[i].states, behs[i].q, i)
+		st, err := replayMusig(ctx, behs[i].states, i)
 		mu.Lock()
 		for k, v := range st {
 			stats[k] += v
@@ -346,18 +352,20 @@ func randScalar(rng *rand.Rand) *big.Int {
 }
 
 // replayMusig replays one behaviour; the returned map counts what it covered.
-func replayMusig(ctx *vrun.Ctx, beh []tlc.TraceState, toyQ, idx int) (st map[string]int, herr error) {
+func replayMusig(ctx *vrun.Ctx, beh []tlc.TraceState, idx int) (st map[string]int, herr error) {
 	st = map[string]int{}
 	if len(beh) == 0 {
 		return st, nil
 	}
 	fin := beh[len(beh)-1].State
-	var setup, noncesDone, hash tla.Value
+	var setup, noncesDone, hash, vals tla.Value
 	var calls []tla.Value
 	haveSetup := false
 	for _, s := range beh {
 		l := s.State["last"]
 		switch l.F("act").Str() {
+		case "ChooseVals":
+			vals = l
 		case "Setup":
 			setup, haveSetup = l, true
 		case "NoncesDone":
@@ -401,9 +409,9 @@ func replayMusig(ctx *vrun.Ctx, beh []tlc.TraceState, toyQ, idx int) (st map[str
 			continue
 		}
 		var v *big.Int
-		for j := 1; j < id; j++ {
-			if dv[j-1] != 0 && dv[j-1]+dv[id-1] == toyQ { // negations of each other in the toy group
-				v = negN(real[j])
+		for _, pr := range vals.F("res").Set() { // pairs of ids whose keys are negations of each other
+			if pr.At(2).Int() == id && real[pr.At(1).Int()] != nil {
+				v = negN(real[pr.At(1).Int()])
 				st["shape:neg"]++
 			}
 		}
@@ -596,6 +604,7 @@ func replayMusig(ctx *vrun.Ctx, beh []tlc.TraceState, toyQ, idx int) (st map[str
 	st["nonce:"+m.nshape]++
 	defer func() { ctx.AddEval(m.evalCnt); st["calls"] += int(m.evalCnt) }()
 	if m.api == "raw" {
+		ctx.Distinct(fmt.Sprintf("musig|raw|%v|%v|%v|%s|%s|%v", keys, m.sort, m.tws, m.tapi, m.nshape, calls))
 		for _, c := range calls {
 			if c.F("act").Str() == "Evaluate" {
 				st["call:Evaluate"]++
@@ -607,6 +616,19 @@ func replayMusig(ctx *vrun.Ctx, beh []tlc.TraceState, toyQ, idx int) (st map[str
 	}
 	if !m.openSessions() {
 		return st, nil
+	}
+	sig := fmt.Sprintf("%s|%v|%v|%v|%s|%s|%s", m.api, keys, m.sort, m.tws, m.tapi, setupRes, m.nshape)
+	for _, c := range calls {
+		sig += "|" + c.F("act").Str() + fmt.Sprint(c.F("p").Int(), c.F("j").Int()) + c.F("res").Str()
+	}
+	ctx.Distinct("musig|" + sig)
+	if len(calls) >= 8 && m.u >= 2 && len(m.tws) > 0 && idx%7 == 0 {
+		var cl []string
+		for _, c := range calls {
+			cl = append(cl, c.String())
+		}
+		ctx.Sample(map[string]any{"spec": "Musig2", "signer_key_ids": keys, "toy_private_keys": dv, "sort": m.sort, "tweak_chain_xonly_t": fmt.Sprint(m.tws), "tweak_api": m.tapi,
+			"setup": setupRes, "nonce_sums": m.nshape, "calls_and_required_results": cl, "real_keys": m.replay["keys"]})
 	}
 	for _, c := range calls {
 		callLog = append(callLog, c.String())
@@ -681,13 +703,14 @@ func (m *mrun) genNonces(s *msigner) (*musig2.Nonces, bool) {
 		m.viol("musig:GenNonces:error", fmt.Sprintf("GenNonces fails: %v", err))
 		return nil, false
 	}
-	sec, pub, rerr := refNonceGen(rnd[:], sk, s.P.compressed(), aggpk, msg, extra)
-	if rerr != nil {
-		return n, true
-	}
-	if !bytes.Equal(n.SecNonce[:], sec) || !bytes.Equal(n.PubNonce[:], pub) {
-		m.replay["nonce_rand"] = hx(rnd[:])
-		m.viol("musig:GenNonces:not-bip327", fmt.Sprintf("GenNonces(rand=%x, sk=%v, aggpk=%v, msg=%v, extra=%x) = %x, BIP327 NonceGen gives %x", rnd, sk != nil, aggpk != nil, msg != nil, extra, n.SecNonce, sec))
+	// (BIP327's exact NonceGen derivation is not part of the property; what is: the
+	// public nonce is the pair of points of the secret nonce, for the signer's key)
+	_, _, _, _ = sk, aggpk, msg, extra
+	k1, k2 := fromB(n.SecNonce[:32]), fromB(n.SecNonce[32:64])
+	if k1.Sign() == 0 || k2.Sign() == 0 || k1.Cmp(bigN) >= 0 || k2.Cmp(bigN) >= 0 ||
+		!bytes.Equal(n.PubNonce[:33], baseMul(k1).compressed()) || !bytes.Equal(n.PubNonce[33:], baseMul(k2).compressed()) ||
+		!bytes.Equal(n.SecNonce[64:], s.P.compressed()) {
+		m.viol("musig:GenNonces:inconsistent", fmt.Sprintf("GenNonces returns secnonce %x and pubnonce %x: the public nonce is not (k1 G, k2 G) or the key is not the signer's", n.SecNonce, n.PubNonce))
 		return nil, false
 	}
 	return n, true
@@ -974,8 +997,12 @@ func (m *mrun) sessionCall(c tla.Value, st map[string]int) (bool, error) {
 					return false, nil
 				}
 			}
-			if m.nshape == "bothinf" {
-				st["final:bothinf-sign"]++
+			// serialisation round trip of the partial signature
+			var buf bytes.Buffer
+			var back musig2.PartialSignature
+			if eerr := ps.Encode(&buf); eerr != nil || buf.Len() != 32 || back.Decode(&buf) != nil || !back.S.Equals(ps.S) {
+				m.viol("musig:PartialSignature:roundtrip", fmt.Sprintf("%s: Encode/Decode of the partial signature %x does not give it back", m.id, sv))
+				return false, nil
 			}
 		}
 	case "Verify", "VerifyCorrupted":
